@@ -302,6 +302,8 @@ static void c03History(Sink &sink, const Args &a, long c, const PInfo &pi, long 
                 if (fixedOps) op = fixedOps[step];
                 hist += std::string(hist.empty() ? "" : ",") + OPN[op];
                 sink.count(std::string("c03_op_") + OPN[op]);
+                // flushed before the operation runs: a crash witness then tells which history led to it
+                sink.rawLine(J().str("t", "info").str("history", hist).b("dirty_switch", dirtySwitch).done());
                 try
                 {
                     if (op == 0 || op == 1)
@@ -321,8 +323,10 @@ static void c03History(Sink &sink, const Args &a, long c, const PInfo &pi, long 
                             {
                                 if (!before[0].approximate_ && after[0].approximate_)
                                     hctx.viol("resume-worse", hctx.detail("exact solution replaced by approximate one after resumed solve()").str("history", hist));
-                                else if (!before[0].approximate_ && !after[0].approximate_ && after[0].path_->length() > before[0].path_->length() * (1 + 1e-9) + 1e-9 &&
-                                         before[0].opt_ && after[0].opt_)
+                                // (true lengths are compared for the planners that maintain costs eagerly; RRT# / RRTX rank their
+                                // solutions by epsilon-consistent stored costs, whose order C04 decides)
+                                else if (pi.eagerCost && !before[0].approximate_ && !after[0].approximate_ &&
+                                         after[0].path_->length() > before[0].path_->length() * (1 + 1e-9) + 1e-9 && before[0].opt_ && after[0].opt_)
                                     hctx.viol("resume-worse", hctx.detail("best solution got longer after resumed solve()").num("before", before[0].path_->length()).num("after", after[0].path_->length()).str("history", hist));
                             }
                             sink.count("c03_resume_checks");
@@ -687,8 +691,7 @@ static void c04Planner(Sink &sink, const Args &a, long c, long idx)
         double thr = objKind == 0 ? straight * rng.uni(1.05, 1.6) : objKind == 3 ? rng.uni(0.05, 0.6) : objKind == 2 ? rng.uni(0.5, 4.0) : straight * rng.uni(1.2, 3.0);
         opt->setCostThreshold(ob::Cost(thr));
     }
-    else if (objKind != 3)
-        opt->setCostThreshold(opt->infiniteCost());  // never satisfied: keep optimizing
+    // otherwise the default threshold stays (never satisfied: planners keep optimizing until the budget is used)
     pdef->setOptimizationObjective(opt);
     ob::PlannerPtr planner;
     std::string flipped;
@@ -910,6 +913,8 @@ static void c20Case(Sink &sink, const Args &a, long c)
         if (!p.mt) single.push_back(&p);
     long nplan = single.size();
     uint64_t seed = caseSeed(a, c, 1) % 1000000000ULL + 1;
+    // seed 0 is special-cased by the library ("cannot be 0, using 1 instead"): still one fixed stream in every process
+    if (c % 5 == 3) seed = 0;
     ompl::RNG::setSeed(seed);
     if (c % (nplan + 1) == nplan)
     {
